@@ -57,7 +57,8 @@ pub fn lid_count1(e: LidEntry) -> i128 { if lid_counts(e) { 1 } else { 0 } }
 // counters
 pub fn lidr_inv(s: Lidr) -> bool {
     0 <= s.len && 0 <= s.active && s.active <= s.len
-        && 0 <= s.next_seq && s.next_seq <= u32_max()
+        // the handshake id (sequence number 0) is registered by the constructor
+        && 1 <= s.next_seq && s.next_seq <= u32_max()
         // never asks the peer to retire ids it has not issued
         && 0 <= s.retire_prior_to && s.retire_prior_to <= s.next_seq
         // MAX_ACTIVE_CONNECTION_ID_LIMIT = 3; 1 until the peer's transport parameters are known
@@ -69,6 +70,8 @@ pub fn lidr_inv(s: Lidr) -> bool {
 pub fn lid_entry_inv(s: Lidr, e: LidEntry) -> bool {
     0 <= e.seq && e.seq < s.next_seq && 0 <= e.status && e.status <= 5
         && 4 <= e.id_len && e.id_len <= 20 && e.retire_at >= 0 - 1
+        // the handshake id is never announced in a NEW_CONNECTION_ID frame: it starts Active and can only be retired
+        && (e.seq != 0 || e.status >= lst_active())
 }
 // two entries at positions i < j of the registry
 pub fn lid_pair_inv(a: LidEntry, b: LidEntry) -> bool {
@@ -244,6 +247,8 @@ pub fn pid_entry_inv(s: Pidr, e: PidEntry) -> bool {
 }
 pub fn pid_pair_inv(a: PidEntry, b: PidEntry) -> bool {
     a.seq != b.seq && !pid_same_id(a, b) && !pid_same_token(a, b)
+        // only the handshake id can wait for rotation
+        && !(a.status == pst_in_use_pending_new_connection_id() && b.status == pst_in_use_pending_new_connection_id())
 }
 
 // ---- on_new_connection_id(id, seq, retire_prior_to, token): classification of the frame against one
@@ -266,6 +271,16 @@ pub fn pid_ncid_entry_post(old: PidEntry, new_rpt: i128, rotate_now: bool, new: 
         && (if pid_is_active(old) && old.seq < new_rpt { new.status == pst_pending_retirement() }
             else if rotate_now && old.status == pst_in_use_pending_new_connection_id() { new.status == pst_pending_retirement() }
             else { new.status == old.status })
+}
+// a repetition of a frame already processed appends nothing and rotates nothing; only Retire Prior To acts
+pub fn pid_ncid_dup_entry_post(old: PidEntry, new_rpt: i128, new: PidEntry) -> bool {
+    pid_ncid_entry_post(old, new_rpt, false, new)
+}
+// what an Err return may have changed before the error was detected (the connection is closed anyway):
+// statuses may have moved to PendingRetirement, nothing else
+pub fn pid_ncid_err_entry_post(old: PidEntry, new: PidEntry) -> bool {
+    new.seq == old.seq && pid_same_id(old, new) && pid_same_token(old, new)
+        && (new.status == old.status || (pid_is_active(old) && new.status == pst_pending_retirement()))
 }
 pub fn pid_entry_unchanged(a: PidEntry, b: PidEntry) -> bool {
     a.seq == b.seq && pid_same_id(a, b) && pid_same_token(a, b) && a.status == b.status
